@@ -20,6 +20,25 @@ PROPS = {
             "sending order through an Output is the order of the model's send().await calls (C02/C03 cover delivery)",
         ],
         "trusted_base": ["M-SINK is hand-written from event_buffer.rs / event_slot.rs; tied by the `sinks` engine"],
+        "level_text": "Lean 4 theorems over the executable model M-SINK for every capacity >= 1 and every operation sequence (bounded, suffix/FIFO, overflow keeps the most recent cap, slot yields last write once, closed ignores, reopen restores); the model is tied to event_buffer.rs/event_slot.rs on every run by running both on the same enumerated and random operation sequences",
+        "level_note": "trusted: Lean kernel; axioms propext/Classical.choice/Quot.sound; the differential harness; Mutex/VecDeque; EventSlot modelled sequentially",
         "explanation": "theorems buf_bounded, buf_suffix, buf_overflow_recent, buf_next_oldest, slot_last, slot_once, closed_ignores, reopen_restores hold for every capacity>=1 and every operation sequence; the engine runs the real EventBuffer/EventSlot and the Lean model on identical request lines",
+    },
+    "C20": {
+        "props_module": "NexoVerif.Props.C20",
+        "model": "M-PQ (NexoVerif/Model/PQ.lean)",
+        "engines": [{
+            "name": "pq",
+            "rule": "one queue per case (PriorityQueue / IndexedPriorityQueue through the verif hooks); ops insert/pull/peek (+peek_key/len/extract(raw key)); all sequences up to length 5 (pq) / 4 (ipq, extract over every raw key with slot<3, epoch<4) in quick, 7 / 5 in thorough, then random ones up to 3000 (quick) / 20000 (thorough) ops with few distinct keys; extract targets live, stale, reused-slot and forged keys; final drain; non-trivial = equal keys queued together, or both an extract hit and an extract miss; distinct by hash of requests+responses",
+        }],
+        "assumptions": [
+            "std::collections::BinaryHeap::pop/peek return a greatest element w.r.t. Ord (modelled as maxItem over the content)",
+            "the binary heap inside IndexedPriorityQueue (heap vector, sift_up/sift_down) is abstracted to 'used node with the least (key, epoch)'; the slab, free list, epochs and raw InsertKeys are modelled exactly and compared with the real code",
+            "u64 epoch overflow (assert_ne!(epoch, u64::MAX)) is out of scope: Nat in the model",
+        ],
+        "trusted_base": ["M-PQ is hand-written from priority_queue.rs / indexed_priority_queue.rs; tied by the `pq` engine (responses and raw insert keys)"],
+        "explanation": "theorems item_cmp_reversed_lex, pq_inv, pq_pull_min, pq_fifo_among_equal_keys, pq_refines_stable_sorted_list, ipq_pull_min, key_no_alias, key_finds_own_entry, stale_key_rejected, epochs_below_reachable hold for every history; the engine runs the real queues and the Lean model on identical request lines",
+        "level_text": "Lean 4 theorems over M-PQ for every operation history: the scheduler queue refines a stable sorted list (minimum key, FIFO among equal keys); an IndexedPriorityQueue insert key extracts its own entry or nothing after any history incl. slot reuse; tied to the code by differential runs comparing responses and raw (slab_idx, epoch) keys",
+        "level_note": "trusted: Lean kernel, propext/Classical.choice/Quot.sound, the differential harness, BinaryHeap; the indexed queue's internal heap is abstracted (sift_up/sift_down not transliterated) — its ordering behaviour is covered by the correspondence only",
     },
 }
